@@ -203,7 +203,7 @@ func keyName(k rlwe.EncryptionKey) string {
 
 func (e *rlweEnv) encDecSubjects() (subs []*subject) {
 	tag := e.ps.Name
-	encScratch := []string{"*.encryptorBuffers", "*.basisextender*.buffQ", "*.basisextender*.buffP", "*.xeSampler", "*.xsSampler", "*.uniformSampler"}
+	encScratch := []string{"*.encryptorBuffers", "*.basisextender*.buffQ", "*.basisextender*.buffP"}
 	for _, key := range []rlwe.EncryptionKey{e.sk, e.pk, nil} {
 		key := key
 		var wk func(any) outs
